@@ -21,11 +21,13 @@ type scriptConn struct {
 	chunks  [][]byte
 	withErr map[int]bool
 	i       int
+	lastErr error // what the last Read of the underlying connection returned
 }
 
 var errScripted = errors.New("scripted read error")
 
-func (c *scriptConn) Read(b []byte) (int, error) {
+func (c *scriptConn) Read(b []byte) (n int, err error) {
+	defer func() { c.lastErr = err }()
 	if c.i >= len(c.chunks) {
 		return 0, errScripted
 	}
@@ -124,16 +126,20 @@ func capExec(a []string) string {
 	sb.WriteString("0:" + last)
 	var up []byte
 	buf := make([]byte, 70000)
+	errsSame := true
 	for i := range sc.chunks {
-		n, _ := h.Read(buf)
+		n, err := h.Read(buf)
 		up = append(up, buf[:n]...) // a reader consumes the n bytes before it looks at the error
+		if err != sc.lastErr {
+			errsSame = false // the layer above must see exactly the errors the connection produced: none invented, none swallowed
+		}
 		r := capRes(h)
 		if r != last {
 			fmt.Fprintf(&sb, " %d:%s", i+1, r)
 			last = r
 		}
 	}
-	if bytes.Equal(up, delivered) {
+	if bytes.Equal(up, delivered) && errsSame {
 		sb.WriteString(" up=ok")
 	} else {
 		sb.WriteString(" up=MISMATCH")
